@@ -803,7 +803,8 @@ def main():
                    'skoolkit.tape.write_tap / write_pzx'],
         bounds={'blocks': '1-2 blocks: data; tone + data; data + data; pulse sequences', 'durations': 'every pulse width, bit-pulse width, tail, pause, first edge symbolic (0..65535; pause to 4000000)',
                 'data': '1-2 bytes per block, each ranging over %r (the byte is realised by the per-byte timing table)' % (BYTE_VALUES,), 'used bits': '1..8', 'polarity': '0/1 x block polarity None/0/1',
-                'outside': 'long data, direct-recording and generalized-data TZX blocks, CSW, tapinfo text, start/stop/skip options'},
+                'block parsers': 'PZX PULS (entry forms short / count / long / count+long, 1-2 entries%s) and DATA with symbolic fields; TZX 0x11, 0x12, 0x13, 0x14 with symbolic fields (pulse counts 1-3, no pause) against equivalent PZX blocks; bits of 1/2, 2/3, 3/1 pulses' % (', 3 in thorough' if args.tier == 'thorough' else ''),
+                'outside': 'long data, direct-recording and generalized-data TZX blocks, how a pause is rendered (TZX: edge at its end; PZX PAUS: level set at its start), CSW, tapinfo text, start/stop/skip options'},
         assumptions=['bit decoding assumes the zero and one pulse lists differ where compared (no assumption is needed: the obligation is per pulse width, not per decoded bit)'],
         stubs=['symbolic pulse widths used as keys of the per-call byte-timing cache are hashed by identity (cache misses only)', 'bytes/bytearray in skoolkit.tape are list-backed stand-ins; open() is replaced by an in-memory file for the two writers'],
         rule='one case per feasible path per (block shape, used bits, polarity, zero-length mode)',
